@@ -245,6 +245,17 @@ func (rn *Runner) Step(r *Resp) (sarama.VerifParseResult, string) {
 			if rn.fmax > 0 && res.FetchSize > rn.fmax && fs0 <= rn.fmax {
 				fail("fetch-size-beyond-max", ans)
 			}
+			// the byte budget is doubled (saturating at MaxInt32, capped by a non-zero Fetch.Max)
+			want := int64(fs0) * 2
+			if want > 2147483647 {
+				want = 2147483647
+			}
+			if rn.fmax > 0 && want > int64(rn.fmax) {
+				want = int64(rn.fmax)
+			}
+			if fs0 > 0 && int64(res.FetchSize) != want {
+				fail("fetch-size-not-doubled-on-partial", fmt.Sprintf("fetch size %d -> %d, expected %d", fs0, res.FetchSize, want))
+			}
 		} else if res.FetchSize != fs0 {
 			fail("fetch-size-changed-without-partial", ans)
 		}
